@@ -27,8 +27,10 @@ func (sc *SubnetConfig) getSubnetsVarint(seed []byte, weighted bool) ([]*phantom
 			return nil, fmt.Errorf("failed to seed random for weighted rand")
 		}
 
-		// nolint:staticcheck // here for backwards compatibility with clients
-		mrand.Seed(seedInt)
+		// A generator local to this call, seeded as the legacy clients seed theirs. It produces
+		// the values the process-global source produced after mrand.Seed(seedInt), but selections
+		// running in other goroutines can no longer re-seed or advance it between Seed and Pick.
+		rng := mrand.New(mrand.NewSource(seedInt))
 
 		choices := make([]wr.Choice, 0, len(sc.WeightedSubnets))
 		for _, cjSubnet := range sc.WeightedSubnets {
@@ -40,7 +42,7 @@ func (sc *SubnetConfig) getSubnetsVarint(seed []byte, weighted bool) ([]*phantom
 			return nil, err
 		}
 
-		return parseSubnets(c.Pick().(*pb.PhantomSubnets))
+		return parseSubnets(c.PickSource(rng).(*pb.PhantomSubnets))
 
 	}
 
@@ -211,12 +213,12 @@ func SelectAddrFromSubnet(seed []byte, net1 *net.IPNet) (net.IP, error) {
 		return nil, fmt.Errorf("failed to create seed ")
 	}
 
-	// nolint:staticcheck // here for backwards compatibility with clients
-	mrand.Seed(seedInt)
+	// A generator local to this call (see getSubnetsVarint): same bytes as the global source gave
+	// after mrand.Seed(seedInt), without sharing state with concurrent selections.
+	rng := mrand.New(mrand.NewSource(seedInt))
 	randBytes := make([]byte, addrLen/8)
 
-	// nolint:staticcheck // here for backwards compatibility with clients
-	_, err := mrand.Read(randBytes)
+	_, err := rng.Read(randBytes)
 	if err != nil {
 		return nil, err
 	}
